@@ -95,6 +95,9 @@ pub fn eval(expr: Node) -> Result<f64, Box<dyn error::Error>> {
             if sub_result >= 0.0 {
                 if (sub_result % 1.0) > 0.0 {
                     Ok(gamma(sub_result + 1.0))
+                } else if sub_result > 170.0 {
+                    // 171! is already above f64::MAX
+                    Ok(f64::INFINITY)
                 } else {
                     let mut factorial_result = 1.0;
                     for i in 2..=(sub_result as usize) {
@@ -114,7 +117,7 @@ pub fn eval(expr: Node) -> Result<f64, Box<dyn error::Error>> {
             if sub_expr < -min_one.exp() {
                 return Err("The Lambert W function is not defined for {}.".into());
             }
-            let iterations = (4).max((sub_expr.log10() / 3.0).ceil() as i32);
+            let iterations = (4).max((sub_expr.log10() / 3.0).ceil() as i32).min(128);
             let mut w: f64 = 0.0;
             for _ in 0..iterations {
                 let exp_w = w.exp();
@@ -128,8 +131,12 @@ pub fn eval(expr: Node) -> Result<f64, Box<dyn error::Error>> {
             let b = eval(*expr2)?;
             let mut x: f64 = 0.0;
             while n > 1.0 {
+                let next = (n.log10() / b.log10()).floor();
+                if !(next < n) || x >= 64.0 {
+                    return Err("The iterated logarithm does not converge for this base".into());
+                }
                 x += 1.0;
-                n = (n.log10() / b.log10()).floor();
+                n = next;
             }
             Ok(x)
         }
